@@ -287,4 +287,72 @@ theorem src_store_address_std_eq (a : Py.AddrV) (b : Builder R) :
   | some c =>
     simp only [Option.map, andThen_ofFlag, src_store_bits_eq, src_store_int_eq, src_store_uint_eq, src_store_bytes_eq, h1, bindS_retU, bindS_assoc]
 
+/-! ### `store_address(ExternalAddress)`: `ExternalAddress.to_cell()` builds a cell in a fresh builder, `end_cell`, then `store_cell`
+
+`mk` = `Cell(bits, refs, type_)` as `end_cell` calls it, a parameter of the translation (`none` = the constructor raises). The
+theorem assumes what the constructor guarantees for a reference-free cell: it is built (depth 0) and keeps its bits. -/
+
+theorem bindL_ofFlag {σ τ β : Type} (r : τ × Bool) (self : σ) (k : τ → Unit → σ × Option β) :
+    Py.bindL (ofFlag r) self k = if r.2 then k r.1 () else (self, none) := by
+  rcases r with ⟨s, _ | _⟩ <;> rfl
+
+theorem extend_refs (xs : Bits) (b : Builder R) : (BOp.extend xs b).1.refs = b.refs := by
+  unfold BOp.extend; split <;> rfl
+
+theorem storeUint_refs (v : Int) (n : Nat) (b : Builder R) : (BOp.storeUint v n b).1.refs = b.refs := by
+  unfold BOp.storeUint; cases BOp.int2baU v n <;> simp [extend_refs, BOp.fail]
+
+/-- the cell `ExternalAddress.to_cell()` builds -/
+def extInner (len : Nat) (val : Int) : Builder R × Bool :=
+  (BOp.storeBits [false, true] ⊳ BOp.storeUint len 9 ⊳ (if len = 0 ∧ val = 0 then BOp.skip else BOp.storeUint val len))
+    (Builder.empty : Builder R)
+
+theorem storeBits_refs (xs : Bits) (b : Builder R) : (BOp.storeBits xs b).1.refs = b.refs := extend_refs xs b
+
+theorem src_end_cell_snd (mk : Bits → List R → Option (Py.CellV R)) (hmk : ∀ bits, mk bits [] = some ⟨bits, []⟩)
+    (a : Py.ExtAddrV) (b : Builder R) (hb : b.refs = []) :
+    (Py.bindL (end_cell mk b) a fun _ r => (a, some r)).2 = some ⟨b.bits, []⟩ := by
+  unfold end_cell Py.bindL Py.bindO
+  rw [hb, hmk]
+
+theorem src_to_cell_eq (mk : Bits → List R → Option (Py.CellV R)) (hmk : ∀ bits, mk bits [] = some ⟨bits, []⟩) (a : Py.ExtAddrV) :
+    (ExternalAddress_to_cell mk a).2 =
+      if (extInner (R := R) a.len a.external_address).2 then some ⟨(extInner (R := R) a.len a.external_address).1.bits, []⟩ else none := by
+  obtain ⟨val, len⟩ := a
+  unfold ExternalAddress_to_cell extInner BOp.andThen
+  simp only [src_store_bits_eq, src_store_uint_eq, bindL_ofFlag]
+  have hb : (({ bits := [], refs := [] } : Builder R)) = Builder.empty := rfl
+  rw [hb]
+  have e1 : (BOp.storeBits [false, true] (Builder.empty : Builder R)).1.refs = [] := by rw [storeBits_refs]; rfl
+  have e2 : (BOp.storeUint (len : Int) 9 (BOp.storeBits [false, true] (Builder.empty : Builder R)).1).1.refs = [] := by
+    rw [storeUint_refs, e1]
+  have e3 : (BOp.storeUint val len (BOp.storeUint (len : Int) 9 (BOp.storeBits [false, true] (Builder.empty : Builder R)).1).1).1.refs = [] := by
+    rw [storeUint_refs, e2]
+  cases h1 : (BOp.storeBits [false, true] (Builder.empty : Builder R)).2
+  · simp [h1]
+  · cases h2 : (BOp.storeUint (len : Int) 9 (BOp.storeBits [false, true] (Builder.empty : Builder R)).1).2
+    · simp [h1, h2]
+    · by_cases hz : len = 0 ∧ val = 0
+      · obtain ⟨hl, hv⟩ := hz
+        subst hl; subst hv
+        simp only [h1, h2, ne_eq, not_true_eq_false, or_self, and_self, if_true, if_false, BOp.skip]
+        exact src_end_cell_snd mk hmk _ _ e2
+      · have hz' : (len ≠ 0 ∨ val ≠ 0) := by omega
+        simp only [h1, h2, hz', hz, if_true, if_false]
+        cases h3 : (BOp.storeUint val len (BOp.storeUint (len : Int) 9 (BOp.storeBits [false, true] (Builder.empty : Builder R)).1).1).2
+        · simp [h3]
+        · simp only [h3, if_true]
+          exact src_end_cell_snd mk hmk _ _ e3
+
+theorem src_store_address_ext_eq (mk : Bits → List R → Option (Py.CellV R)) (hmk : ∀ bits, mk bits [] = some ⟨bits, []⟩)
+    (a : Py.ExtAddrV) (b : Builder R) :
+    store_address_externaladdress mk a b = ofFlag (BOp.storeAddress (.ext a.len a.external_address) b) := by
+  unfold store_address_externaladdress BOp.storeAddress
+  rw [src_to_cell_eq mk hmk a]
+  show _ = ofFlag (if (extInner (R := R) a.len a.external_address).2 then
+      BOp.storeCell (extInner (R := R) a.len a.external_address).1.bits [] b else (b, false))
+  split
+  · simp only [Py.bindO, src_store_cell_eq, bindS_retU]
+  · rfl
+
 end TonVerif.Proofs.SrcBuilder
